@@ -413,7 +413,36 @@ def r11_8(ctx):
     ctx.floor(n, 1, "factory return forms")
 
 
-RULES = [r11_1, r11_2, r11_3, r11_4, r11_5, r11_6, r11_7, r11_8]
+def r11_9(ctx):
+    ctx.rule("R11.9", "guarded-by for the display's lifecycle state: every store to `_started` and `_refresh_thread` of Live / Progress outside __init__ executes with the display's own lock held (lexically or on entry from every caller); a store made after the lock is released races with a concurrent start() - stop() clearing `_refresh_thread` after the locked section drops the reference of the thread another caller has just started, which then keeps refreshing a stopped display and keeps the process alive")
+    n = 0
+    for spec, lock_attr in (("live:Live", "_lock"), ("progress:Progress", "_lock")):
+        cls = ctx.repo.cls(spec)
+        lock_id = None
+        for name, lst in cls.methods.items():
+            if name == "__init__":
+                continue
+            for f in lst:
+                for x in walk_local(f.node):
+                    tgts = []
+                    if isinstance(x, ast.Assign):
+                        tgts = x.targets
+                    elif isinstance(x, (ast.AugAssign, ast.AnnAssign)):
+                        tgts = [x.target]
+                    flat = []
+                    for t in tgts:
+                        flat += list(t.elts) if isinstance(t, (ast.Tuple, ast.List)) else [t]
+                    for t in flat:
+                        if isinstance(t, ast.Attribute) and is_attr_of(t, "self") and t.attr in ("_started", "_refresh_thread"):
+                            n += 1
+                            held = must_held(ctx, f, x)
+                            own = {l for l in held if l[1] == lock_attr and l[0] == cls.name}
+                            ctx.check(bool(own), f.fq, short(x), f"{f.module.relpath}:{x.lineno}", f"`{norm(t)}` stored under {fmt_locks(held)}",
+                                      f"`{short(x)}` stores the display's `{t.attr}` without {cls.name}.{lock_attr} (held: {fmt_locks(held)}): a concurrent start() can have replaced the value in between - the new refresh thread's reference is overwritten with None, nobody ever stops or joins it")
+    ctx.floor(n, 6, "stores to _started / _refresh_thread in Live and Progress")
+
+
+RULES = [r11_1, r11_2, r11_3, r11_4, r11_5, r11_6, r11_7, r11_8, r11_9]
 
 
 def _xcheck(ctx):
